@@ -59,7 +59,8 @@ type Buffer struct {
 	commit func(b *Buffer) error
 	// commitMu serializes calls to Commit, so that the content and
 	// descriptor that one call has verified are the ones that it stores
-	// and returns, even when another Commit is made concurrently.
+	// and returns, even when another Commit is made concurrently;
+	// writes take it too, so that a Commit is atomic with respect to them.
 	// It is acquired before mu.
 	commitMu  sync.Mutex
 	mu        sync.Mutex
@@ -128,6 +129,12 @@ func (b *Buffer) Write(data []byte) (int, error) {
 // writeAt appends data to the blob, first checking that the
 // blob currently holds exactly offset bytes (-1 for no check).
 func (b *Buffer) writeAt(offset int64, data []byte) (int, error) {
+	// A write waits for a Commit that is in progress: Commit verifies
+	// the content and then stores it in two steps, and a write that got
+	// in between would be one that the commit has not seen, made at
+	// a time when the committed blob is not there yet.
+	b.commitMu.Lock()
+	defer b.commitMu.Unlock()
 	b.mu.Lock()
 	defer b.mu.Unlock()
 	if offset != -1 && int64(len(b.buf)) != offset {
